@@ -889,6 +889,9 @@ impl Interpreter {
         use crate::compiler::Compiler;
         use bytecode_vm::BytecodeVM;
 
+        // A run that failed or was abandoned never finalised its exports: the table is per run
+        self.exports.clear();
+
         // Set main module path if this is the entry point
         if self.main_module_path.is_none() {
             self.main_module_path = module_path.clone();
@@ -1393,6 +1396,8 @@ impl Interpreter {
         // its call-stack entries and the guards of its scopes belong to nobody now
         self.call_stack.clear();
         self.env_guards.clear();
+        // ... and what it exported so far will never be finalised
+        self.exports.clear();
         self.active_module_env = None;
         self.active_module_path = None;
     }
@@ -1414,6 +1419,9 @@ impl Interpreter {
         if self.active_vm.is_some() {
             self.abort_active_execution();
         }
+
+        // A run that failed or was abandoned never finalised its exports: the table is per run
+        self.exports.clear();
 
         // Set main module path if this is the entry point
         if self.main_module_path.is_none() {
